@@ -29,24 +29,12 @@ pub fn sdt_write_span(o: &SdtOp) -> Option<(u64, u64)> {
 
 /// mask[i] == true: op i is outside the accepted domain and must be refused
 pub fn refusal_mask(p: &Program, flat: &[Op]) -> Vec<bool> {
-    let mut imsic = false;
-    let mut tpm_log = false;
     let mut sdt_len = match p.ctor {
         Ctor::Sdt { len, .. } => len as u64,
         _ => 0,
     };
     flat.iter()
         .map(|op| match op {
-            Op::Imsic { via_add_imsic: true, .. } => {
-                let r = imsic;
-                imsic = true;
-                r
-            }
-            Op::Tpm2Log(..) => {
-                let r = tpm_log;
-                tpm_log = true;
-                r
-            }
             Op::Cfmws { ways, targets, .. } => targets.len() as u32 != WAYS_COUNT[*ways as usize],
             Op::Sdt(o) => {
                 let r = match sdt_write_span(o) {
@@ -69,7 +57,19 @@ pub fn open_mask(p: &Program, flat: &[Op]) -> Vec<bool> {
         Ctor::Slit(n) => n,
         _ => 0,
     };
-    flat.iter().map(|op| matches!(op, Op::SlitSet(a, b, _) if *a >= n || *b >= n)).collect()
+    // Likewise a second IMSIC through add_imsic and a second set_log_area: the crate refuses them today
+    // (one IMSIC per MADT, one log area), but no property demands the refusal -- a crate that handled
+    // the second call correctly would keep them all.
+    let mut imsic = false;
+    let mut tpm_log = false;
+    flat.iter()
+        .map(|op| match op {
+            Op::SlitSet(a, b, _) => *a >= n || *b >= n,
+            Op::Imsic { via_add_imsic: true, .. } => std::mem::replace(&mut imsic, true),
+            Op::Tpm2Log(..) => std::mem::replace(&mut tpm_log, true),
+            _ => false,
+        })
+        .collect()
 }
 
 /// Folds the observations of a driven history into the list of ops the reference must encode.
